@@ -730,7 +730,7 @@ def layout_native(log_dir):
             raise Inconclusive(f"replay lexlayout printed nothing for the ill-indented program: {out[-200:]}")
         if not m2.group(1).startswith("BASE-ERR LEX-ERROR"):
             problems.append(f"[{prof}] a dedent to a column that is no open level (8 between 4 and 12) is accepted by the lexer")
-    return bool(problems), "; ".join(problems) or "all layout variants (2 / 3 / 8 spaces, tabs, CRLF, trailing spaces, blank lines, comments) parse to the same program"
+    return bool(problems), "; ".join(problems) or f"all {len(layout_variants(LAYOUT_BASE))} layouts of the example program (2 / 3 / 8 spaces, tabs, mixed tabs, CRLF, trailing spaces, blank lines, comments, line breaks in brackets, final newline or none) parse to the same program and the ill-indented one is refused"
 
 
 def build(pid, tier, log_dir):
